@@ -137,6 +137,35 @@ def _level_form_on_path(level: Term, p: Path):
     return form
 
 
+def _kept_state(ctx: Ctx, *ts) -> List[str]:
+    """_other_state restricted to attributes that are written after construction and set-up (a remembered value), or that
+    stand where the tick size stands (price / T ... * T with another T: another grid); a constant of the class is neither"""
+    out = []
+    for a in _other_state(*ts):
+        ws = ctx.cg.writers_of("Market", a.split(".", 1)[1])
+        if any(w.func.qualname not in ("Market.__init__", "Market.setup") for w in ws):
+            out.append(a)
+    for t in ts:
+        if t is None:
+            continue
+        for x in subterms(strip_ver(t)):
+            if x[0] == "bin" and x[1] in ("/", "%", "//") and x[2] in (PRICE, ("sym", "price")) and x[3] != TICK and _other_state(x[3]):
+                out.extend(a for a in _other_state(x[3]) if a not in out)
+    return out
+
+
+def _other_state(*ts) -> List[str]:
+    """private state of the market (other than the tick size) that a term reads: a table of tick sizes, a remembered cell, a cached reciprocal"""
+    out = set()
+    for t in ts:
+        if t is None:
+            continue
+        for x in subterms(strip_ver(t)):
+            if x[0] == "attr" and x[1] == ("sym", "self") and x[2].startswith("_") and x[2] not in ("_is_running",):
+                out.add("self." + x[2])
+    return sorted(out)
+
+
 @rule("C19.R1", "the price of an order is rewritten exactly when it is a limit price that is not a multiple of the tick size", "T3 control dependence", floor=2)
 def r1(ctx: Ctx) -> None:
     f = ctx.func(ADD)
@@ -147,6 +176,10 @@ def r1(ctx: Ctx) -> None:
         n += 1
         st = _rewrites(p)
         og = _offgrid(p)
+        grid_conds = [c for c, _, _ in p.conds if PRICE in list(subterms(strip_ver(c))) and _kept_state(ctx, c)]
+        if og is None and grid_conds:
+            ctx.unrec(f, f.node, "the on-grid test is decided on every accepting path", "the path tests the price against other state of the market (" + ", ".join(_other_state(*grid_conds)[:3]) + "): the grid of this market is not the one tick size the rule knows")
+            continue
         if og is None:
             ctx.violated(f, f.node, "the on-grid test is decided on every accepting path", "`price is not None and price % tick_size != 0` decided", p.describe()[:160])
             continue
@@ -206,6 +239,8 @@ def r2(ctx: Ctx) -> None:
         elif level is not None and any(s_[0] == "call" and s_[1][0] == "attr" and "convert_to_tick_level" in s_[1][2] and key(strip_ver(s_[1][1])) != "self" for s_ in subterms(level)):
             # the level is asked of another object (e.g. the order book): its rounding is that object's, not decided here
             ctx.unrec(f, st[0].node, label, "the tick level is computed by a conversion method of another object than the market", short(v))
+        elif _kept_state(ctx, v):
+            ctx.unrec(f, st[0].node, label, "the new price is computed from other state of the market (" + ", ".join(_kept_state(ctx, v)[:3]) + "): whether that state agrees with price / tick_size is not decided", short(v))
         elif level is None:
             ctx.violated(f, st[0].node, label, expd, short(v))
         else:
@@ -224,6 +259,8 @@ def r2(ctx: Ctx) -> None:
                 ctx.check("math." + form[0] == fn, g, g.node, f"{q} = {fn}(price / tick_size)", f"{fn}(price / self.tick_size)", short(r))
             elif form is not None and not (TICK in list(subterms(form[1]))):
                 ctx.unrec(g, g.node, f"{q} = {fn}(price / tick_size)", "the level is not written as floor/ceil of price / self.tick_size", short(r))
+            elif _kept_state(ctx, r, *[c for c, _, _ in p.conds]):
+                ctx.unrec(g, g.node, f"{q} = {fn}(price / tick_size)", "the level depends on other state of the market (" + ", ".join(_kept_state(ctx, r, *[c for c, _, _ in p.conds])[:3]) + ")", short(r))
             else:
                 ctx.violated(g, g.node, f"{q} = {fn}(price / tick_size)", f"{fn}(price / self.tick_size)", short(r))
     g = ctx.func("Market.convert_to_tick_level")
